@@ -13,7 +13,7 @@
     derived from the two abstract hypotheses of [C02_vecid_sec2], which the
     plugin checks as table obligations on every basis vector, and evaluated as
     oracles on the implementation. *)
-From Dino Require Import Base.Ops Base.Sums Base.Inst Gen.DerivExprs Model.Deriv Thm.Deriv Thm.LegendrePoly.
+From Dino Require Import Base.Ops Base.Sums Base.Inst Gen.DerivExprs Gen.Legendre Model.Deriv Model.Legendre Thm.Deriv Thm.Legendre Thm.LegendrePoly.
 From Coq Require Import Reals Qcanon Lra.
 Local Open Scope F_scope.
 
@@ -257,14 +257,13 @@ Qed.
     q_{m,l} = leg_q sq m l of the code's recurrence and their formal derivative,
       (1 - x^2) q_{m,l}' - m x q_{m,l} = (l+1) eps(m,l) q_{m,l-1} - l eps(m,l+1) q_{m,l+1},
     the relation that Grid.cos_lat_d_dlat implements with the weights d1_wm = (l+1) a, d1_wp = -l b.
-    PROVED here (partial): the relation for ANY value sequences Q k, dQ k that satisfy the normalised
+    PROVED here (abstract form): the relation for ANY value sequences Q k, dQ k that satisfy the normalised
     three-term recurrence and its formal derivative (product rule), for every field, every order m
     (field value M), every point t and every degree l = m + k; together with the identity
     1 + (2l-1) eps_l^2 = (2l+3) eps_{l+1}^2 of the closed form a2_expr (Gen/DerivExprs.v) it uses.
-    MISSING: the instantiation Q k := peval (leg_q sq m (m+k)) t, dQ k := peval (pderiv ..) t
-    (Leibniz rule of the formal derivative on products of coefficient lists), and a Qc instance
-    (M = 1/2 makes eps = 1/2 rational).  The plugin keeps the numerical table obligation. *)
-Theorem C02_legendre_derivative_relation_partial {F : Type} {o : Ops F} {Fc : FieldC o}
+    The instantiation with the code's coefficient lists is C02_legendre_derivative_relation below; a Qc
+    instance of these hypotheses (M = 1/2 makes eps = 1/2 rational) is C02_legendre_derivative_nonvacuous. *)
+Theorem C02_legendre_derivative_relation_abstract {F : Type} {o : Ops F} {Fc : FieldC o}
   (t M : F) (Q dQ e Lf : nat -> F) :
   Lf 0%nat = M -> (forall k, Lf (S k) = Lf k + 1) ->
   e 0%nat = 0 -> (forall k, e (S k) <> 0) ->
@@ -282,6 +281,103 @@ Proof.
   intros H1 H2 H3 H4 H5 H6 H7 H8 H9 H10. split.
   - intros k. exact (deriv_relation_abstract t M Q dQ e Lf H1 H2 H3 H4 H5 H6 H7 H8 H9 H10 k).
   - exact eps2_key.
+Qed.
+
+(** the FULL statement, for the recurrence of associated_legendre.py: Q k, dQ k are the coefficient
+    lists leg_q sq m (m+k) (built by the generated leg_step) and their formal derivative (Leibniz rule
+    proved in Thm/LegendrePoly.v).  With P[m,i,l] = evaluate(n_m, n_l, x)[m,i,l] = y_i^m q_{m,l}(x_i),
+    the quantity y_i^m ((1 - x^2) q' - m x q)(x_i) = value at node i of (1 - x^2) d/dx (y^m q) (when
+    y^2 = 1 - x^2) is the d1_wm / d1_wp weighted combination of the neighbouring table entries with
+    a = eps(m,l), b = eps(m,l+1): exactly what Grid.cos_lat_d_dlat applies (transposed) to spectra.
+    Hypotheses on sq = np.sqrt: squares to the b-radicands; 0 on the zero radicand; a_k b_{k+1} = 1
+    (the radicands are reciprocal: C01_legendre_radicands); 4 l^2 - 1 <> 0 in F. *)
+Theorem C02_legendre_derivative_relation {F : Type} {o : Ops F} {Fc : FieldC o}
+  (sq : F -> F) nx (x y : nat -> F) n_m n_l m i k :
+  (forall j, leg_eb sq m (S j) * leg_eb sq m (S j) = rad_b (llit m) (llit (S j))) ->
+  leg_eb sq m 1 = 0 ->
+  (forall j, leg_ea sq m (S j) * leg_eb sq m (S (S j)) = 1) ->
+  (forall j, lit 4 * (llit (m + j)%nat * llit (m + j)%nat) - 1 <> 0) ->
+  (n_m <= n_l)%nat -> (i < nx)%nat -> (m < n_m)%nat -> (m + k + 1 < n_l)%nat ->
+  lpow (y i) m * peval (leg_Dm m (leg_q sq m (m + k)%nat)) (x i)
+  = d1_wm (lit (m + k)%nat) (leg_eps sq m (m + k)%nat)
+      * (match k with O => 0 | S k' => legendre_evaluate sq nx x y n_m n_l m i (m + k')%nat end)
+    + d1_wp (lit (m + k)%nat) (leg_eps sq m (m + k + 1)%nat) * legendre_evaluate sq nx x y n_m n_l m i (m + k + 1)%nat.
+Proof. exact (legendre_derivative_relation sq nx x y n_m n_l m i k). Qed.
+
+(** what leg_Dm evaluates to, and the squares of the eps used are the a/b tables' closed forms *)
+Theorem C02_legendre_derivative_meaning {F : Type} {o : Ops F} {Fc : FieldC o} (sq : F -> F) (m : nat) (q : list F) (t : F) :
+  peval (leg_Dm m q) t = (1 - t * t) * peval (pderiv q) t - llit m * t * peval q t /\
+  (forall p r : list F, peval (pderiv (pmul p r)) t = peval (pderiv p) t * peval r t + peval p t * peval (pderiv r) t) /\
+  (forall k, leg_eb sq m (S k) * leg_eb sq m (S k) = rad_b (llit m) (llit (S k)) ->
+             leg_eps sq m (m + k)%nat * leg_eps sq m (m + k)%nat = a2_expr 1 (llit (m + k)%nat) (llit m)).
+Proof.
+  split; [exact (peval_leg_Dm m t q)|]. split; [intros; apply pderiv_pmul|].
+  intros k H. rewrite leg_eps_mk, H, rad_b_eps2, (llit_mk m k). reflexivity.
+Qed.
+
+(** non-vacuity of the hypotheses of the abstract relation: in any field with 1 + 1 <> 0 (then over
+    Qc), M = 1/2 gives eps(M, M+k) = 1/2 for k >= 1; Q, dQ generated by the recurrences from Q_0 = 1 *)
+Definition deriv_hyps {F : Type} {o : Ops F} (t M : F) (Q dQ e Lf : nat -> F) : Prop :=
+  Lf 0%nat = M /\ (forall k, Lf (S k) = Lf k + 1) /\ e 0%nat = 0 /\ (forall k, e (S k) <> 0) /\
+  e 1%nat * Q 1%nat = t * Q 0%nat /\
+  (forall k, e (S (S k)) * Q (S (S k)) = t * Q (S k) - e (S k) * Q k) /\
+  dQ 0%nat = 0 /\
+  e 1%nat * dQ 1%nat = Q 0%nat + t * dQ 0%nat /\
+  (forall k, e (S (S k)) * dQ (S (S k)) = Q (S k) + t * dQ (S k) - e (S k) * dQ k) /\
+  (forall k, 1 + ((1 + 1) * Lf k - 1) * (e k * e k) = ((1 + 1) * Lf k + 1 + 1 + 1) * (e (S k) * e (S k))).
+
+Section C02_deriv_example.
+  Context {F : Type} {o : Ops F} {Fc : FieldC o}.
+  Add Field FFex : (field_c : FieldTh o).
+  Hypothesis H2 : (1 + 1 : F) <> 0.
+  Definition exh : F := 1 / (1 + 1).
+  Definition exE (k : nat) : F := match k with O => 0 | S _ => exh end.
+  Definition exL (k : nat) : F := exh + llit k.
+  Fixpoint exQ (t : F) (k : nat) : (F * F) * (F * F) :=
+    match k with
+    | O => ((1, (1 + 1) * t), (0, 1 + 1))
+    | S k' => let s := exQ t k' in
+              ((snd (fst s), (1 + 1) * (t * snd (fst s) - exE (S k') * fst (fst s))),
+               (snd (snd s), (1 + 1) * (snd (fst s) + t * snd (snd s) - exE (S k') * fst (snd s))))
+    end.
+  Definition exQ0 t k : F := fst (fst (exQ t k)).
+  Definition exD0 t k : F := fst (snd (exQ t k)).
+
+  Lemma exh_nz : exh <> 0.
+  Proof.
+    intro E. apply (F_1_neq_0 (field_c : FieldTh o)).
+    transitivity ((1 + 1) * exh); [unfold exh; field; exact H2|]. rewrite E. ring.
+  Qed.
+
+  Lemma C02_deriv_example_hyps t : deriv_hyps t exh (exQ0 t) (exD0 t) exE exL.
+  Proof.
+    unfold deriv_hyps.
+    split. { unfold exL. cbn [llit]. ring. }
+    split. { intros k. unfold exL. cbn [llit]. ring. }
+    split. { reflexivity. }
+    split. { intros k. exact exh_nz. }
+    split. { unfold exQ0. cbn [exQ exE fst snd]. unfold exh. field. exact H2. }
+    split. { intros k. unfold exQ0. cbn [exQ exE fst snd]. generalize (exQ t k). intros s. unfold exh. field. exact H2. }
+    split. { reflexivity. }
+    split. { unfold exQ0, exD0. cbn [exQ exE fst snd]. unfold exh. field. exact H2. }
+    split. { intros k. unfold exQ0, exD0. cbn [exQ exE fst snd]. generalize (exQ t k). intros s. unfold exh. field. exact H2. }
+    intros [|k]; unfold exL; cbn [exE llit]; unfold exh; field; exact H2.
+  Qed.
+End C02_deriv_example.
+
+Example C02_legendre_derivative_nonvacuous :
+  let t : Qc := Q2Qc (1#3) in
+  deriv_hyps (o := QcOps) t exh (exQ0 t) (exD0 t) exE exL /\
+  (* the sequences are not trivial, and the conclusion holds on them: Q_2(1/3) = 4/9 - 1, dQ_2(1/3) = 8/3 *)
+  exQ0 t 2%nat = Q2Qc (-5#9) /\ exD0 t 2%nat = Q2Qc (8#3) /\
+  (1 - t * t) * exD0 t 2%nat - exh * t * exQ0 t 2%nat
+  = (exL 2%nat + 1) * (exE 2%nat * exQ0 t 1%nat) - exL 2%nat * (exE 3%nat * exQ0 t 3%nat).
+Proof.
+  intros t. split.
+  { apply (C02_deriv_example_hyps (o := QcOps)). intro H. discriminate H. }
+  split. { apply Qc_is_canon; vm_compute; reflexivity. }
+  split. { apply Qc_is_canon; vm_compute; reflexivity. }
+  apply Qc_is_canon; vm_compute; reflexivity.
 Qed.
 
 Print Assumptions C02_gen_complete.
@@ -309,4 +405,7 @@ Print Assumptions C02_vecid_sec2.
 Print Assumptions C02_grad_top_clipped.
 Print Assumptions C02_hyps_satisfiable.
 Print Assumptions C02_cos2_hyps_satisfiable_R.
-Print Assumptions C02_legendre_derivative_relation_partial.
+Print Assumptions C02_legendre_derivative_relation_abstract.
+Print Assumptions C02_legendre_derivative_relation.
+Print Assumptions C02_legendre_derivative_meaning.
+Print Assumptions C02_legendre_derivative_nonvacuous.
